@@ -37,6 +37,7 @@ class Ref:
         r.cur = None
         r.diverged = False
         r.raised = []             # every event put in the internal queue, in order (for C08/C13 style checks)
+        r.payloads = collections.defaultdict(collections.deque)     # event name -> data of its pending instances
 
     def confids(r):
         return set(s.id for s in r.conf)
@@ -59,6 +60,10 @@ class Ref:
         elif k == 'sendint':
             r.iq.append(a[1]); r.raised.append(a[1])
         elif k == 'send':
+            r.eq.append(a[1])
+        elif k == 'sendp':
+            # params are evaluated when the <send> runs and travel with that instance of the event (same-named events stay in FIFO order)
+            r.payloads[a[1]].append(dict((n, ev_expr(x, r.env, r.confids())) for n, x in a[2]))
             r.eq.append(a[1])
         elif k == 'assign':
             if a[1] not in r.env:
@@ -352,6 +357,7 @@ class Ref:
 
     def external(r, evn):
         r.env['_evname'] = evn
+        r.env['_evdata'] = r.payloads[evn].popleft() if r.payloads.get(evn) else {}
         ts = r.select(evn)
         if ts:
             r.microstep(ts, evn); r.cur['q'] = 'e'
